@@ -99,7 +99,7 @@ def _gen_bundle(r) -> Dict[str, Any]:
     if r.chance(0.85):
         pol["tau_high"] = th
     if r.chance(0.85):
-        pol["tau_low"] = tl
+        pol["tau_low"] = tl if not r.chance(0.05) else float("nan")
     if r.chance(0.6):
         pol["epsilon_edit"] = r.choice([0.0, 0.05, 0.1, 0.5])
     nodes = [{"id": "n%d" % i, "label": r.choice(E.VOCAB), "delta": r.choice([0.0, 0.01, 0.05, 0.09, 0.1, 0.3, -0.2, -0.04])} for i in range(r.randint(0, 6))]
@@ -109,7 +109,8 @@ def _gen_bundle(r) -> Dict[str, Any]:
     b: Dict[str, Any] = {
         "cfg": {"t3": {"tokens": r.choice([0, 1, 5, 256]), "max_rag_loops": r.choice([0, 1])}, "t2": {"owner_scope": r.choice(["any", "agent", "world"]), "k_retrieval": r.choice([1, 2, 10])}},
         "agent": {"caps": {"ops": r.choice([0, 1, 2, 3, 8])}},
-        "t2": {"metrics": {"sim_stats": {"max": r.choice([0.0, 0.05, 0.2, 0.39, 0.4, 0.41, 0.6, 0.79, 0.8, 0.95, 1.0, -0.3])}}},
+        # (a degenerate score - not a number - is not "below the low threshold")
+        "t2": {"metrics": {"sim_stats": {"max": r.choice([0.0, 0.05, 0.2, 0.39, 0.4, 0.41, 0.6, 0.79, 0.8, 0.95, 1.0, -0.3, float("nan")])}}},
         "t1": {"touched_nodes": nodes}, "text": {"input": E.gen_text(r), "labels_from_t1": [n["label"] for n in nodes] if r.chance(0.5) else []},
         "now": "2023-11-14T22:13:20+00:00"}
     if pol or r.chance(0.5):
